@@ -32,5 +32,14 @@ def run(tier, seed):
     rep.assumptions.append('arity: Choice is proved for EVERY arity by segment induction (head / middle / last+tail triples from an arbitrary state satisfying the cut-point invariant + closure of the segment shapes at arity 5 and 7); Seq: every arity - each segment shape is a Hoare triple from an arbitrary chain position (the failure of the item itself, or value stored and chain extended), closure keyed by (kind, shape), items assigned once, distinct, display in order; Longest: every arity by the same segment induction (ghost winner-so-far); Skip: every arity by segment induction inside one loop iteration (J: at the checkpoint, no earlier item progresses) under the loop invariant of SkipC; every proved segment shape is keyed by the KIND (flags) of its child')
     rep.assumptions.append('re contract: matcher(text,pos) is None or a match with pos <= end <= len(text), a function of (pattern, flags, text, pos)')
     rep.assumptions.append('driver contract for rule references: the answer to a request (CALL, f, pos) is the outcome of f at pos (proved for _run under C07/C08)')
+    if tier == 'thorough':
+        # the combination lemma behind A-meta, re-checked by Lean (core only, < 10 s); a failure is a fault of the machinery, never a violation
+        from pyvc import meta
+        r = meta.check_meta()
+        rep.extra['a_meta_lemma'] = r
+        if r['status'] == 'failed':
+            rep.errors.append(('meta:Compose.lean', 'crash', f"the Lean proof of the combination lemma does not check: {str(r.get('reason'))[:300]}"))
+        elif r['status'] == 'unavailable':
+            rep.notes.append('A-meta: lean is not available in this environment; the combination lemma was not re-checked in this run')
     dependency_layer(rep, tier)
     return rep.finish()
